@@ -43,6 +43,20 @@ def check(ctx):
     N = ctx.normalizer()
     fe = P.func("skmatter.metrics.periodic_pairwise_euclidean_distances")
     fm = P.func("skmatter.metrics.pairwise_mahalanobis_distances")
+    # self-distances without a cell: sklearn returns exact zeros on the diagonal only when it is handed ONE array
+    # object for both operands (it tests `X is Y`); copies of the same data give rounding noise of the size of
+    # the cancellation |x|^2 + |x|^2 - 2 x.x instead
+    seen = []
+
+    def hook(interp, qual, args, kw, st_, node):
+        if qual.endswith("euclidean_distances"):
+            seen.append((args, kw))
+        return None
+
+    I, st = ctx.interp(call_hook=hook), State()
+    ctx.call_func(I, st, fe, arr("X", "nX", "D"))
+    ok = len(seen) == 1 and len(seen[0][0]) >= 2 and seen[0][0][0].loc is not None and seen[0][0][0].loc == seen[0][0][1].loc
+    ctx.ob("NF-DIST", "Y=None without a cell: sklearn receives one array object for both operands (exact zero self-distances)", ok, f"{len(seen)} call(s); operands {[(repr(a_.term)[:40], a_.loc) for a_ in (seen[0][0][:2] if seen else [])]}", ctx.site(fe), "Y=None,cell=None")
     for cell_on in (False, True):
         for squared in (False, True):
             cfg = f"cell={cell_on},squared={squared}"
